@@ -55,9 +55,10 @@
 (* assignment that is never reached (unchanged).  Negative control          *)
 (* NonAtomicRead (self.db bound first and filled while streaming, self.rdb  *)
 (* = reverse(db) after the loop): TLC reports Inverse violated              *)
-(* (MC_Debtags_nonatomic.cfg).  qread() binds self.db and self.rdb in two   *)
-(* statements: the named deviation QReadBindsDbFirst, OFF in the property   *)
-(* configurations, ON in MC_Debtags_qread.cfg -> Inverse violated.          *)
+(* (MC_Debtags_nonatomic.cfg).  qread() loads both pickles and then binds   *)
+(* both dictionaries at once (fix 65b1608, finding C20-qread-nonatomic);    *)
+(* negative control NonAtomicQread (self.db bound before the second load):  *)
+(* MC_Debtags_qread.cfg -> Inverse violated.                                *)
 (*                                                                         *)
 (* Configurations: MC_Debtags.cfg (closed, 3 packages x 3 tags),           *)
 (* MC_Debtags_lts.cfg (same + EDGE/STATE emission), _lts_small (2 packages *)
@@ -85,7 +86,7 @@ CONSTANTS PK,          \* package names offered by the model configuration
           ReReadKeys,  \* packages used for "read() over a non-empty database" (replaces, never merges)
           InsertNewTagStoresChars,   \* the named deviation (BOOLEAN)
           NonAtomicRead,     \* negative control: read() binds self.db first, self.rdb after the loop
-          QReadBindsDbFirst, \* named deviation: qread() binds self.db, then self.rdb (two statements)
+          NonAtomicQread,    \* negative control: qread() binds self.db before loading the second pickle
           ShallowCopy, \* negative control: copy()/reverse_copy() share the set objects with the source
           SrcSteps,    \* the source of a copy stays observed for this many further calls (0: never)
           Emit         \* TRUE: print EDGE / STATE lines (the complete LTS of the reference)
@@ -330,7 +331,7 @@ ReadFails(lines, drop, k) ==
       /\ KeepSrc(src, IF st2 = Impl THEN al ELSE [db |-> NoAlias(st2).db, rdb |-> al.rdb], st2)
 QReadFails(lines, stage) ==
    LET new     == IRead(lines, {})
-       st2     == IQReadFails(Impl, new, stage, QReadBindsDbFirst)
+       st2     == IQReadFails(Impl, new, stage, NonAtomicQread)
        allowed == {Abs, ARead(lines, {})}
    IN /\ SetAbs(AfterFailure(st2, allowed))
       /\ EdgeF("qread_fails", lines, stage, allowed)
